@@ -259,6 +259,8 @@ class BDD(dd._abc.BDD[_Ref]):
                         ref
                         ) -> int:
                     if isinstance(ref, Function):
+                        if ref not in self:
+                            raise ValueError(ref)
                         return ref.node
                     raise ValueError(
                         'Expected homogeneous type '
